@@ -178,8 +178,12 @@ class Comparator:
     def cmp_obs(self, oa, ob, where, W=None, st=None, k=0):
         cond = self.well_conditioned(W, st) if st is not None else False
         vol_tol = float(200 * self.q_vol * (k + 2)) * 4
+        def amt_vol(contents):
+            return float(sum((self.tol_amt(W.msubs[n], k)[0] * W.msubs[n].per_amount('L') for n in contents), F(0)))
         if st is not None and st[0] == 'container':
-            vol_tol += float(sum((200 * (k + 2) * (self.q_u if W.msubs[n].is_enzyme else self.q_mol) * W.msubs[n].per_amount('L') for n in st[1]), F(0)))
+            vol_tol += amt_vol(st[1])
+        elif st is not None and st[0] == 'plate':
+            vol_tol += max([amt_vol(w[1]) for w in st[1]] + [0.0]) * len(st[1])
         for (ta, sa, va), (tb, sb, vb) in zip(oa, ob):
             if 'get_concentration' in ta and not cond:
                 continue
